@@ -696,7 +696,12 @@ func init() {
 		// later vacancies: whoever leads by then loses the record again (several terms per
 		// candidate: a candidate that led before must be able to come back)
 		t := end + r.Dur(1*sec, 4*sec)
-		for k := r.Intn(3); k > 0; k-- {
+		slowAttempts := r.Bool(0.25)
+		nv := r.Intn(3)
+		if slowAttempts {
+			nv = 2 + r.Intn(2)
+		}
+		for k := nv; k > 0; k-- {
 			p.Actions = append(p.Actions, Action{At: t, Kind: Pick(r, []string{AOutDelete, AExpire}), Key: "g1"})
 			t += p.TTL/2 + r.Dur(2*sec, 5*sec)
 		}
@@ -704,6 +709,12 @@ func init() {
 		p.Until = end + 6*sec
 		p.Tail = p.TTL + 2*sec
 		p.Sched = SchedCfg{YieldProb: Pick(r, []float64{0, 0.2, 0.5}), StallMax: Pick(r, []time.Duration{0, 5 * ms, 50 * ms, p.H / 10})}
+		if slowAttempts {
+			// acquisition attempts that are slow to start (up to a second at the top of an attempt),
+			// so that several rounds of one instance overlap: one wins while another is still waiting
+			// to begin; then more vacancies
+			p.Sched = SchedCfg{YieldProb: 0.8, StallMax: Pick(r, []time.Duration{300 * ms, 1 * sec}), StallSites: []string{"acquire.attempt"}}
+		}
 		return p
 	}
 }
@@ -919,10 +930,15 @@ func init() {
 		// a client configured with a long request time-out and a store that answers some
 		// operations only after Stop's 5 s cap: the operation in flight may finish, nothing new
 		// may follow it
-		if r.Bool(0.25) {
+		lateTaker := n > 1 && p.Insts[0].Takeover && p.Insts[0].Prio == 5 && p.Actions[0].At > 0
+		if r.Bool(0.25) || lateTaker && r.Bool(0.5) {
 			p.Store.ClientTimeout = 15 * sec
 			from := r.Dur(0, 3*p.H)
-			p.Faults = append(p.Faults, Fault{Kind: FSlow, Inst: 0, Op: Pick(r, []string{"get", "create", "update", ""}), From: from, To: from + r.Dur(p.H, 10*sec), Arg: r.Dur(5*sec, 9*sec), Prob: 0.7})
+			op := Pick(r, []string{"get", "create", "update", ""})
+			if lateTaker && r.Bool(0.6) {
+				op = "get" // the takeover's read
+			}
+			p.Faults = append(p.Faults, Fault{Kind: FSlow, Inst: 0, Op: op, From: from, To: from + r.Dur(p.H, 10*sec), Arg: r.Dur(5*sec, 9*sec), Prob: 0.7})
 		}
 		return p
 	}
@@ -955,7 +971,7 @@ func enumerateStopPoint(p *Plan, seed uint64) {
 	opKind := ""
 	if r.Bool(0.25) {
 		// the stop point is one of the instance's own acquisitions (its 1st..3rd create)
-		opKind, opn = "create", 1+opn%3
+		opKind, opn = Pick(r, []string{"create", "create", "create", "get", "update"}), 1+opn%3
 		if r.Bool(0.5) {
 			opn = 1
 		}
@@ -1089,6 +1105,52 @@ func init() {
 		p.Until = t + 2*p.TTL + 2*sec
 		p.Tail = 0
 		p.Sched = SchedCfg{YieldProb: Pick(r, []float64{0.3, 0.6}), StallMax: Pick(r, []time.Duration{p.H / 50, p.H / 8, p.H / 8})}
+		return p
+	}
+}
+
+func init() {
+	// C05 "lost acknowledgement": one write of an acquisition (the Create, or the takeover's
+	// Update) is applied but its acknowledgement never arrives; the writer learns of the failure
+	// only at the client time-out (5 s), by which time its record (TTL of a few seconds, or an
+	// outsider's delete) has been succeeded by another instance's. Whatever the writer publishes
+	// next must carry a fresh token. Priorities and takeover flags vary, so that the next write
+	// is a Create or a takeover of the successor's record.
+	families["c05ack"] = func(r *Rng) *Plan {
+		p := &Plan{Judge: []string{"C05", "C01", "C18"}}
+		p.H = Pick(r, []time.Duration{200 * ms, 500 * ms, 1 * sec})
+		p.TTL = Pick(r, []time.Duration{3 * p.H, 3 * p.H, 4 * p.H})
+		n := 2 + r.Intn(2)
+		p.Insts = mkInsts(r, n, 1)
+		for i := range p.Insts {
+			c := &p.Insts[i]
+			c.Prio = Pick(r, []int{1, 2, 3, 5})
+			c.Takeover = r.Bool(0.7)
+			c.V = Pick(r, []time.Duration{0, 2 * p.H})
+			p.Actions = append(p.Actions, Action{At: time.Duration(i) * r.Dur(0, 2*p.H), Kind: AStart, Inst: i})
+		}
+		p.Insts[0].Prio, p.Insts[0].Takeover = 5, true
+		p.Store = healthyStore(r, Pick(r, []time.Duration{p.H / 2, p.H / 10}))
+		// the lost acknowledgements: the n-th Create / Update of one or two instances
+		for k := 0; k < 1+r.Intn(2); k++ {
+			op := Pick(r, []string{"create", "create", "update"})
+			nth := 1 + r.Intn(2)
+			if op == "update" {
+				nth = 1 + r.Intn(6)
+			}
+			p.Faults = append(p.Faults, Fault{Kind: FDropResp, Inst: Pick(r, []int{0, 0, r.Intn(n)}), Op: op, OpN: nth})
+		}
+		if r.Bool(0.4) {
+			p.Actions = append(p.Actions, Action{At: r.Dur(p.H, 6*sec), Kind: AOutDelete, Key: "g1"})
+		}
+		if r.Bool(0.3) { // a restart of the writer while its write is still unanswered
+			t := r.Dur(p.H, 5*sec)
+			p.Actions = append(p.Actions, Action{At: t, Kind: AStopCtx, Inst: 0, Timeout: 1 * sec})
+			p.Actions = append(p.Actions, Action{At: t + r.Dur(1*sec, 3*sec), Kind: AStart, Inst: 0})
+		}
+		p.Until = 7*sec + 3*p.TTL
+		p.Tail = 0
+		p.Sched = SchedCfg{YieldProb: Pick(r, []float64{0, 0.2}), StallMax: Pick(r, []time.Duration{0, p.H / 50})}
 		return p
 	}
 }
